@@ -1,6 +1,8 @@
 package nfs
 
 import (
+	"github.com/mit-pdos/go-journal/addr"
+	"github.com/mit-pdos/go-journal/jrnl"
 	"github.com/mit-pdos/go-nfsd/dir"
 	"github.com/mit-pdos/go-nfsd/fh"
 	"github.com/mit-pdos/go-nfsd/fstxn"
@@ -134,6 +136,23 @@ func vMonitor() vMon {
 	}
 	m.durable = flushed >= lastPos
 	return m
+}
+
+// bitmapHooks (C03/C14): the bitmaps are shared by all transactions and no lock covers them; what a
+// transaction owns is the BIT of a number it holds through the in-memory allocator (allocated by it, or
+// pointed to by an inode it has locked). GoJournal lets transactions commit concurrently only if the
+// objects they touch are disjoint, so every journal access inside the bitmap region must be exactly one
+// bit wide: a wider object (a byte, a block) is shared with transactions holding no common lock, and the
+// later commit overwrites the earlier one's bits.
+func (w *vW) bitmapHooks() {
+	bs, ie := uint64(w.sup.BitmapBlockStart()), uint64(w.sup.InodeStart())
+	chk := func(op *jrnl.Op, a addr.Addr, sz uint64) {
+		if a.Blkno >= bs && a.Blkno < ie && sz != 1 {
+			w.coarseBitmap = true
+		}
+	}
+	verifrt.OnCall("(*github.com/mit-pdos/go-journal/jrnl.Op).ReadBuf", chk)
+	verifrt.OnCall("(*github.com/mit-pdos/go-journal/jrnl.Op).OverWrite", chk)
 }
 
 // stepHooks marks DoShrink (helper transactions) in the event stream
@@ -351,6 +370,9 @@ func (w *vW) coherent(label string, nums []uint64) {
 func VerifStep() {
 	w := vWorld("d")
 	w.stepHooks()
+	if verifrt.Param("p14", 0) == 1 || verifrt.Param("p03", 0) == 1 {
+		w.bitmapHooks()
+	}
 	if verifrt.Param("p14", 0) == 1 {
 		vWatchShared()
 	} else if verifrt.Param("p03", 0) == 1 {
@@ -506,6 +528,7 @@ func VerifStep() {
 	ok := st == nfstypes.NFS3_OK
 	if verifrt.Param("p14", 0) == 1 || verifrt.Param("p03", 0) == 1 {
 		vLockset("mon:inode-accessed-only-under-its-lock")
+		verifrt.Assert(!w.coarseBitmap, "mon:bitmaps-accessed-one-bit-at-a-time")
 	}
 	if ok {
 		verifrt.Cover("ok")
@@ -856,6 +879,13 @@ func VerifC19Limits() {
 				if proc == pRENAME {
 					verifrt.Cover("rename-ok")
 				}
+				// ... and can be read back from the disk: with the directory's name cache dropped (as after
+				// a restart, an eviction or an aborted request) the name still resolves
+				if slot := w.nfs.fsstate.Icache.LookupSlot(dx); slot != nil && slot.Obj != nil {
+					slot.Obj.(*inode.Inode).Dcache = nil
+				}
+				lk := w.nfs.NFSPROC3_LOOKUP(nfstypes.LOOKUP3args{What: nfstypes.Diropargs3{Dir: dh, Name: name}})
+				verifrt.Assert(lk.Status == nfstypes.NFS3_OK, "accepted-name-reads-back-from-disk")
 			}
 		} else {
 			verifrt.Assert(st != nfstypes.NFS3_OK && m.appends == 0, "name-beyond-name_max-refused-without-effect")
